@@ -68,7 +68,12 @@ inline std::string genWellFormedText(sim::Rng &r, const std::string &lab, bool d
             bool fresh;
             do { nm = genName(r); fresh = true; for (auto &p : pool) if (p == nm) fresh = false; } while (!fresh);
             pool.push_back(nm);
-        } else pool.push_back(std::to_string(r.pm(800) ? i : (int)r.below(12)));
+        } else {
+            static const int sp[6] = {127, 128, 255, 256, 300, 65};
+            const bool special = r.pm(60);
+            const int small = r.pm(800) ? i : (int)r.below(12);
+            pool.push_back(std::to_string(special ? sp[r.below(6)] : small));
+        }
     }
     std::vector<std::pair<std::string, std::string>> used;
     int lines = (int)r.below(14);
@@ -141,9 +146,15 @@ inline std::string genBinaryFile(sim::Rng &r, const std::string &lab, bool direc
     std::string out;
     std::vector<std::pair<unsigned, unsigned>> used;
     int recs = (int)r.below(13);
+    const bool big = !arbitrary && r.pm(80);
     for (int i = 0; i < recs; ++i) {
         unsigned a = (unsigned)r.below(arbitrary ? 64 : 9), b = (unsigned)r.below(arbitrary ? 64 : 9);
         if (r.pm(150)) b = a;
+        if (big) { // indices whose bytes are "special" (0x7f/0x80/0xff, carries into the second byte)
+            static const unsigned sp[8] = {127, 128, 255, 256, 257, 300, 511, 254};
+            if (r.pm(250)) a = sp[r.below(8)];
+            if (r.pm(250)) b = sp[r.below(8)];
+        }
         bool dup = false;
         for (auto &u : used) if ((u.first == a && u.second == b) || (!directed && u.first == b && u.second == a)) dup = true;
         if (dup && !(arbitrary && r.pm(300))) continue;
@@ -170,13 +181,13 @@ inline sim::Plan genPlan(uint64_t seed, const std::string &profile, bool thoroug
     static const std::vector<std::string> all8 = {"LD", "LU", "DM", "UM", "DW", "UW"};
     static const std::vector<std::string> labeledOnly = {"int", "unsigned", "double", "char", "string", "struct"};
     static const std::vector<std::string> textLabels = {"none", "int", "unsigned", "double", "char", "string", "struct"};
-    if (profile == "C19") {
+    if (profile == "C19" || (profile == "C17" && r.pm(120))) {
         p.cls = "STEP"; p.lab = "none";
         int nops = 1 + (int)r.below(thorough ? 6 : 3);
         for (int i = 0; i < nops; ++i) {
             sim::Op o;
             o.k = "steps";
-            o.x = (int64_t)r.below(10);
+            o.x = (int64_t)r.below(12);
             o.a = (int64_t)r.below(1 << 16);
             o.b = (int64_t)r.below(1 << 16);
             int64_t algo = (int64_t)r.below(3);
@@ -224,7 +235,8 @@ inline sim::Plan genPlan(uint64_t seed, const std::string &profile, bool thoroug
     } else if (profile == "C06") { pReplica = rate({100, 200, 300}); pSnap = rate({40, 80, 150}); pPersist = rate({0, 30}); }
     else if (profile == "C07") { pReject = rate({300, 400, 500}); pSnap = rate({0, 30}); }
     else if (profile == "C16") { pSnap = rate({0, 20}); }
-    else if (profile == "C17" || profile == "C18") { pAlg = rate({100, 200, 300}); pSnap = rate({20, 50}); pPersist = rate({30, 60}); pReplica = rate({0, 30}); pIo = rate({0, 30}); }
+    else if (profile == "C17") { pAlg = rate({100, 200, 300}); pSnap = rate({20, 50}); pPersist = rate({30, 60}); pReplica = rate({0, 30}); pIo = rate({0, 40, 80}); }
+    else if (profile == "C18") { pAlg = rate({100, 200, 300}); pSnap = rate({20, 50}); pPersist = rate({30, 60}); pReplica = rate({0, 30}); pIo = rate({0, 30}); }
     else if (profile == "C13" || profile == "C14" || profile == "C15") { pIo = rate({150, 300, 450}); pPersist = rate({100, 200}); nops = 1 + (int)r.below(thorough ? 40 : 20); }
     const int pNoSweep = (profile == "C13" || profile == "C14" || profile == "C15") ? 0 : rate({0, 0, 0, 300, 600});
     p.cfg["p_nosweep"] = pNoSweep;
@@ -269,6 +281,12 @@ inline sim::Plan genPlan(uint64_t seed, const std::string &profile, bool thoroug
                 else if (u < 75 && binOk) { o.k = "loadraw"; o.x = 2; o.y = 1; o.s = genBinaryFile(r, p.lab, directed, true); }
                 else if (textOk) { o.k = "loadraw"; o.x = r.pm(700) ? 0 : 1; o.y = 1; o.s = genMalformedText(r, p.lab, p.c("wild", 0) != 0); }
                 else { o.k = "cutall"; o.x = 1; }
+            } else if (profile == "C17" && u < 40) { // the inputs of C15 are inputs of C17 too (only memory errors are charged to C17)
+                bool binOk = !(p.lab == "string" || p.lab == "struct");
+                if (u < 15 && binOk) { o.k = "cutall"; o.x = 1; }
+                else if (u < 20) { o.k = "cutall"; o.x = 0; }
+                else if (u < 30 && binOk) { o.k = "loadraw"; o.x = 2; o.y = 1; o.s = genBinaryFile(r, p.lab, directed, true); }
+                else { o.k = "loadraw"; o.x = r.pm(700) ? 0 : 1; o.y = 1; o.s = genMalformedText(r, p.lab, false); }
             } else { // C17/C18: fault-free I/O
                 if (u < 50 || p.lab == "string" || p.lab == "struct") { o.k = "loadraw"; bool names = r.pm(400); o.x = names ? 1 : 0; o.y = 0; o.s = genWellFormedText(r, p.lab, directed, names); }
                 else { o.k = "loadraw"; o.x = 2; o.y = 0; o.s = genBinaryFile(r, p.lab, directed, false); }
